@@ -308,6 +308,65 @@ def check_mutable_default(form):
     return res
 
 
+
+# ----------------------------------------------------------------------------- scenarios with explicit expectations
+def _scenarios():
+    out = []
+    # (a) an activated callee assigns to its own parameter and finishes: the restarted instance is bound from the
+    #     activator's arguments / the declared default again
+    for sig, call, first in (("$p=10", "activate callee", 10), ("$p=10", "activate callee $p=3", 3), ("$p", "activate callee 3", 3),
+                             ("$p $q=5", "activate callee 1", (1, 5)), ("$p $q=5", "activate callee $q=7 $p=1", (1, 7))):
+        two = isinstance(first, tuple)
+        echo = "send Echo(p=$p, q=$q)" if two else "send Echo(p=$p)"
+        assign = ["$p = 99"] + (["$q = 98"] if two else [])
+        src = (f"flow callee {sig}\n  {echo}\n  match E1()\n" + "".join(f"  {a}\n" for a in assign) + "  match E2()\n\n"
+               f"flow main\n  {call}\n  match Never()\n")
+        want = [first, first, first]
+        out.append((f"activated-restart-rebinds:{call.replace('activate callee', '').strip() or 'default'}", src, ["E1", "E2", "E1", "E2"], "Echo",
+                    (lambda e, two=two: (e.get("p"), e.get("q")) if two else e.get("p")), want))
+    # (b) the callee (or a flow it starts before its first wait) changes the global the caller passed as an argument
+    for how in ("await", "start"):
+        call = "$r = await callee $g" if how == "await" else "start callee $g as $ref\n  match $ref.Finished() as $ev\n  $r = $ev.return_value"
+        src = ("flow callee $v\n  global $g\n  $g = $g + 1\n  send Echo(p=$v)\n  match E1()\n  return $v\n\n"
+               f"flow main\n  global $g\n  $g = 1\n  {call}\n  send After(r=$r, g=$g)\n  match Never()\n")
+        out.append((f"argument-expression-changes-after-the-call:{how}", src, ["E1"], ("Echo", "After"),
+                    (lambda e: (e["type"], e.get("p"), e.get("r"), e.get("g"))), [("Echo", 1, None, None), ("After", None, 1, 2)]))
+    # (c) return member named like a parameter
+    for sig, call, want in (("$x -> $x", "await callee 4", 4), ("$x -> $x", "await callee $x=3", 3), ("$x=7 -> $x", "await callee", 7), ("$x -> $y", "await callee $x=3", 3)):
+        src = f"flow callee {sig}\n  send Echo(p=$x)\n\nflow main\n  {call}\n  send After()\n  match Never()\n"
+        out.append((f"return-member-named-like-a-parameter:{sig}:{call.replace('await callee', '').strip() or 'default'}", src, [], "Echo", (lambda e: e.get("p")), [want]))
+    # (d) activations that differ only in the TYPE of an argument are different calls
+    for vals in ((1, True), (True, 1), (0, False), (1, 1.0), ("1", 1), (None, 0), (0, None)):
+        acts = "".join(f"  activate callee {lit(v)}\n" for v in vals)
+        src = f"flow callee $v\n  send Echo(p=$v, t=type($v))\n  match Never()\n\nflow main\n{acts}  match Never()\n"
+        out.append((f"activations-differing-in-type:{'-'.join(lit(v) for v in vals)}", src, [], "Echo", (lambda e: (type(e.get("p")).__name__, e.get("p"))),
+                    [(type(v).__name__, v) for v in vals]))
+    return out
+
+
+def check_scenarios(_):
+    res = {"programs": 0, "steps": 0, "viol": [], "defaults_used": 0, "named": 0, "positional": 0}
+    for name, src, events, evtypes, proj, want in _scenarios():
+        info = {"engine": "C08-scn", "source": src, "scenario": name}
+        res["programs"] += 1
+        evtypes = (evtypes,) if isinstance(evtypes, str) else evtypes
+        try:
+            st = v2x.init_state(src)
+            got = []
+            v2x.step(st, v2x.resolve_event(st, ("start_main",)), [], v2x.UIDS.n)
+            got += [proj(e) for e in st.outgoing_events if e["type"] in evtypes]
+            for ev in events:
+                v2x.step(st, {"type": ev}, [], v2x.UIDS.n)
+                res["steps"] += 1
+                got += [proj(e) for e in st.outgoing_events if e["type"] in evtypes]
+        except Exception as e:
+            res["viol"].append((f"scenario:{name}:raised", f"{type(e).__name__}: {str(e)[:160]}", info))
+            continue
+        if got != want:
+            res["viol"].append((f"scenario:{name}", f"observed {got}, expected {want}", info))
+    return res
+
+
 def tasks(tier):
     out = []
     kmax = 3
@@ -394,6 +453,12 @@ def run(rep, tier):
             agg[k] += r[k]
         for sig, what, info in r["viol"]:
             rep.violation(sig, what, info)
+    for r in par.pmap(check_scenarios, [0]):
+        for k in agg:
+            agg[k] += r[k]
+        rep.set("scenario_programs", r["programs"])
+        for sig, what, info in r["viol"]:
+            rep.violation(sig, what, info)
     rep.set("parameter_names_checked", len(PARAM_NAMES))
     rep.set("evaluations", agg["programs"])
     rep.set("interpreter_steps", agg["steps"])
@@ -417,6 +482,14 @@ def replay(rp):
         print(rp["source"])
         for sig, what, _i in r["viol"]:
             print(sig, ":", what)
+        print(rp.get("what"))
+        return 0
+    if rp.get("engine") == "C08-scn":
+        r = check_scenarios(0)
+        print(rp["source"])
+        for sig, what, _i in r["viol"]:
+            if rp.get("scenario") in sig:
+                print(sig, ":", what)
         print(rp.get("what"))
         return 0
     if rp.get("engine") == "C08-name":
